@@ -2,3 +2,4 @@ pub mod c16;
 pub mod c19;
 pub mod c20;
 pub mod hemc;
+pub mod iomc;
